@@ -41,6 +41,10 @@ def targets(private_allowed):
     return t
 
 
+# real sockets / real time: a verdict must persist when the case is re-run on its own (2 of 3)
+RETRY_PREFIX = "*"
+
+
 def gen_cases(rng, ctx):
     thorough = ctx["tier"] == "thorough" or ctx.get("widened")
     cases = []
